@@ -452,5 +452,12 @@ def run(ctx):
     got = []
     ctx.guard("lane-eq", "blake2-simd", lambda: got.append(simdeq.check_blake2_simd(ctx, progs)))
     ctx.check(got == [6], "floor", "lane-eq", "3 SIMD BLAKE2 compression functions x {final, non-final} compared with RFC 7693 F", "only %s SIMD BLAKE2 comparisons ran" % got, key="floor:lane-eq")
+    # SHA-256 multi-block SIMD schedule: lane i must read block i (shared with C16)
+    from . import C16
+    P3 = ctx.prog("K3")
+    ctx.guard("gather", "sse41", lambda: C16.check_gather(ctx, P3, "sse41", 4))
+    ctx.guard("gather", "avx", lambda: C16.check_gather(ctx, progs["K4"], "avx", 8))
+    ctx.guard("stride", "sse41", lambda: C16.check_stride(ctx, P3, "sse41", 4, "reference"))
+    ctx.guard("stride", "avx", lambda: C16.check_stride(ctx, progs["K4"], "avx", 8, "sse41"))
     ctx.trusted.append("definition-derived oracle cxsa/spec/hashes.py; ssa evaluator and bit provenance; value-graph evaluator cxsa/simd.py (x86 intrinsic semantics)")
     ctx.not_decided += ["compression functions and permutations as numerical functions (round structure, message schedule, G mixing)", "SIMD paths (C16)"]
